@@ -53,10 +53,19 @@ _KINDS = {
 }
 
 
+SHARED = [ValueError("one exception instance raised again and again")]
+
+
+def _raise(kind, tag):
+    if kind == "SharedValueError":
+        raise SHARED[0]         # the same exception object every time (its traceback accumulates)
+    raise _KINDS[kind]("armed " + tag)
+
+
 def _fail(tag):
     kind = ARMED.get(tag)
     if kind and kind != "None":
-        raise _KINDS[kind]("armed " + tag)
+        _raise(kind, tag)
     return 0
 
 
@@ -65,7 +74,7 @@ def _failn(tag):
     if kind == "None":
         return 1            # the formula turns this into a None result
     if kind:
-        raise _KINDS[kind]("armed " + tag)
+        _raise(kind, tag)
     return 0
 
 
@@ -107,6 +116,7 @@ def reset_session():
     sysm.serializing = None
     mx.set_recursion(400)
     ARMED.clear()
+    SHARED[0] = ValueError("one exception instance raised again and again")
     del TICKS[:]
     try:
         sysm._modelnamer.__init__("Model")
